@@ -33,7 +33,7 @@ type WorkerViolation struct {
 // RunWorker runs `<binary> <id> <mode> <arg>` (binary relative to .build) and parses the
 // line "WORKERJSON {...}" from its stdout.  stderr (race reports) is kept in a file.
 func RunWorker(binary, id, mode, arg string, env ...string) (*WorkerResult, string, error) {
-	bin := filepath.Join(Root, ".build", binary)
+	bin := filepath.Join(BuildDir(), binary)
 	cmd := exec.Command(bin, id, mode, arg)
 	cmd.Env = append(os.Environ(), env...)
 	var out, errb bytes.Buffer
@@ -116,4 +116,12 @@ func SaveRaceReports(id, stderr string) int {
 	os.MkdirAll(filepath.Dir(path), 0o755)
 	os.WriteFile(path, []byte(strings.Join(keep, "\n==================\n")+"\n"), 0o644)
 	return len(keep)
+}
+
+// BuildDir is where the check script put the binaries.
+func BuildDir() string {
+	if d := os.Getenv("VERIF_BUILD"); d != "" {
+		return d
+	}
+	return filepath.Join(Root, ".build")
 }
